@@ -42,6 +42,7 @@ func countLines(r io.Reader) uint64 {
 	fileScanner.Buffer(make([]byte, 0, scannerInitialBufSize), scannerMaxLineSize)
 
 	for fileScanner.Scan() {
+		simYield(nil, "send.countLine")
 		count++
 	}
 
@@ -130,6 +131,7 @@ func (fs *FileStorage) GetMessages(offset uint64) ([]storage.Message, error) {
 	buf := make([]byte, 0, scannerInitialBufSize)
 	scanner.Buffer(buf, scannerMaxLineSize)
 	for scanner.Scan() {
+		simYield(fs, "get.line")
 		if offset > 0 {
 			offset--
 			continue
